@@ -15,14 +15,14 @@ ASSUMPTIONS = [
   "regions without content are not judged here (C13/C14)",
   "text compared as token sequences (exact white space is C13's clause)",
 ]
-REQUIRED = ["snapshots:plain", "snapshots:cached", "snapshots:non-empty", "probe-on-boundary", "class:regions:0", "class:regions:1",
+REQUIRED = ["corpus-docs", "snapshots:plain", "snapshots:cached", "snapshots:non-empty", "probe-on-boundary", "class:regions:0", "class:regions:1",
             "class:regions:many", "class:ruby", "class:timed-region", "class:display-none-specified", "class:display-animated"]
 SHARD_TIMEOUT = {"quick": 900, "thorough": 7200}
 N = {"quick": 60, "thorough": 2500}
 
 
 def plan(tier, seed):
-  return [{"n": N[tier], "shard": i} for i in range(16)]
+  return [{"n": N[tier], "shard": i} for i in range(14)] + _isdwork.corpus_shards(tier)
 
 
 def run(ctx, params):
